@@ -39,6 +39,10 @@ type FileSpec struct {
 //	retrieve an entry already in the cache that the current process retrieves (real Retrieve)
 //	store    an entry the current process stores (real Store)
 //	begin    a Store in progress: entry marked, previous version removed, files partly written
+//	storing  the REAL dirCache.Store of the current process, running in its own goroutine and stopped inside the
+//	         RecursiveLink of output number Gate (that output is a FIFO and the cache lies on another file
+//	         system than the outputs, so the Store blocks copying it until the harness feeds the FIFO);
+//	         Old: a previous version of the entry, written by an earlier process, is there when it starts
 //	stray    any other file or directory inside the cache directory
 type Op struct {
 	How   string     `json:"how"`
@@ -51,6 +55,8 @@ type Op struct {
 	Rel   string     `json:"rel,omitempty"`
 	Dir   bool       `json:"dir,omitempty"`
 	Size  int        `json:"size,omitempty"`
+	Gate  int        `json:"gate,omitempty"`
+	Old   bool       `json:"old_version,omitempty"`
 }
 
 type Spec struct {
@@ -109,6 +115,20 @@ type Obs struct {
 	Survivors [][]string `json:"survivors,omitempty"`
 	Removed   []string   `json:"removed"`
 	Race      *RaceObs   `json:"race_observed,omitempty"`
+	Storing   []StoringObs `json:"stores_in_progress,omitempty"`
+}
+
+// StoringObs: one real Store that was in progress while clean ran, and what it left when it was let go.
+type StoringObs struct {
+	Entry    string     `json:"entry"`
+	Marked   bool       `json:"entry_marked_when_clean_started"`
+	Missing  []string   `json:"files_missing_from_the_stored_entry"`
+	pre      []lst      // the cache directory before the Store started
+	preCalls []Call     // the markDir calls before the Store started
+	afterAll [][]string // the cache directory after the Store finished
+	tmpRel   string
+	files    []FileSpec
+	gate     int
 }
 
 // ---------------------------------------------------------------------------------------------
@@ -199,11 +219,26 @@ type run struct {
 // If chooseMarks is non-nil it picks the water marks once the size the code computes is known.
 func execute(spec Spec, chooseMarks func(total uint64, sizes []uint64) (uint64, uint64, string)) *run {
 	r := &run{spec: spec, after: map[string]bool{}}
-	parent, err := os.MkdirTemp("", "c14-")
+	repo, err := os.MkdirTemp("", "c14-")
 	must(err)
-	defer os.RemoveAll(parent)
-	must(os.Chdir(parent))
-	core.RepoRoot = parent
+	defer os.RemoveAll(repo)
+	must(os.Chdir(repo))
+	core.RepoRoot = repo
+	parent := repo // the directory the cache directory lies in
+	for _, op := range spec.Ops {
+		if op.How == "storing" && parent == repo {
+			// on another file system than the outputs: os.Link fails with EXDEV and RecursiveLink copies
+			parent, err = os.MkdirTemp("/dev/shm", "c14-")
+			must(err)
+			defer os.RemoveAll(parent)
+		}
+	}
+	var pending []*pendingStore
+	defer func() {
+		for _, ps := range pending {
+			ps.release()
+		}
+	}()
 	cacheDir := filepath.Join(parent, spec.Root)
 	dc := cache.VerifNewDirCache(cacheDir, spec.Compress)
 	rel := func(p string) string {
@@ -249,14 +284,21 @@ func execute(spec Spec, chooseMarks func(total uint64, sizes []uint64) (uint64, 
 				}
 				r.prot = append(r.prot, rel(p))
 				calls = append(calls, p)
-			} else {
+			} else if beingStored := func() bool {
+				for _, o := range spec.Ops {
+					if o.How == "storing" && op.Tmp && o.Pkg == op.Pkg && o.Name == op.Name && string(o.Key) == string(op.Key) {
+						return true
+					}
+				}
+				return false
+			}(); !beingStored { // what lies at the temporary location of an entry this process is storing becomes part of that entry
 				r.unprot = append(r.unprot, rel(p))
 			}
 		case "store":
 			t := target(op.Pkg, op.Name)
 			files := []string{}
 			for _, f := range op.Files {
-				writeFile(filepath.Join(parent, t.OutDir(), f.Rel), f.Size)
+				writeFile(filepath.Join(repo, t.OutDir(), f.Rel), f.Size)
 				t.AddOutput(f.Rel)
 				files = append(files, f.Rel)
 			}
@@ -282,6 +324,15 @@ func execute(spec Spec, chooseMarks func(total uint64, sizes []uint64) (uint64, 
 			}
 			r.protTmp = append(r.protTmp, rel(tmp))
 			calls = append(calls, p)
+		case "storing":
+			if spec.Compress {
+				panic("storing: uncompressed caches only")
+			}
+			if op.Old { // the previous version of the entry, left by an earlier process
+				p := dc.Path(target(op.Pkg, op.Name), op.Key)
+				writeFile(filepath.Join(p, "old.a"), 77)
+				times = append(times, timed{p, op.Atime})
+			}
 		default:
 			panic("unknown op " + op.How)
 		}
@@ -291,6 +342,30 @@ func execute(spec Spec, chooseMarks func(total uint64, sizes []uint64) (uint64, 
 		if err := os.Chtimes(t.path, at, time.Unix(start-5_000_000, 0)); err != nil && !os.IsNotExist(err) {
 			panic(err)
 		}
+	}
+	// the real Stores of the current process: each runs up to its gate and stays there while clean runs
+	for _, op := range spec.Ops {
+		if op.How != "storing" {
+			continue
+		}
+		so := StoringObs{files: op.Files, gate: op.Gate}
+		var tmp []lst
+		list(parent, spec.Root, &tmp)
+		list(parent, spec.Root, &so.pre)
+		marks := dc.Marks()
+		for _, p := range calls {
+			so.preCalls = append(so.preCalls, Call{Path: comps(rel(p)), Size: marks[p]})
+		}
+		t := target(op.Pkg, op.Name)
+		ps := startStore(dc, repo, t, op)
+		pending = append(pending, ps)
+		so.Entry, so.tmpRel = rel(ps.path), rel(ps.tmp)
+		_, so.Marked = dc.Marks()[ps.path]
+		r.protTmp = append(r.protTmp, so.tmpRel)
+		if so.Marked { // the model is told what the code did
+			calls = append(calls, ps.path)
+		}
+		r.obs.Storing = append(r.obs.Storing, so)
 	}
 	// the first listing reads every directory, which settles the access times (relatime); the
 	// second one is the input of the model
@@ -347,8 +422,107 @@ func execute(spec Spec, chooseMarks func(total uint64, sizes []uint64) (uint64, 
 			return r
 		}
 	}
+	// let the Stores go on to their end and look at what they have stored
+	for i, ps := range pending {
+		ps.release()
+		so := &r.obs.Storing[i]
+		so.Missing = []string{}
+		for _, f := range so.files {
+			if info, err := os.Lstat(filepath.Join(ps.path, f.Rel)); err != nil || info.Size() != int64(f.Size) {
+				so.Missing = append(so.Missing, f.Rel)
+			}
+		}
+		var all []lst
+		list(parent, spec.Root, &all)
+		for _, it := range all {
+			so.afterAll = append(so.afterAll, comps(it.rel))
+		}
+	}
 	r.ok = true
 	return r
+}
+
+// pendingStore is a real dirCache.Store running in a goroutine, blocked on the FIFO that is one of its outputs.
+type pendingStore struct {
+	path, tmp string
+	fifo      *os.File
+	size      int
+	done      chan struct{}
+	released  bool
+}
+
+func startStore(dc *cache.VerifDirCache, repo string, t *core.BuildTarget, op Op) *pendingStore {
+	ps := &pendingStore{path: dc.Path(t, op.Key), tmp: dc.TmpPath(t, op.Key), done: make(chan struct{}), size: op.Files[op.Gate].Size}
+	files := []string{}
+	for i, f := range op.Files {
+		full := filepath.Join(repo, t.OutDir(), f.Rel)
+		if i == op.Gate {
+			must(os.MkdirAll(filepath.Dir(full), 0o755))
+			os.Remove(full)
+			must(syscall.Mkfifo(full, 0o644))
+		} else {
+			writeFile(full, f.Size)
+		}
+		t.AddOutput(f.Rel)
+		files = append(files, f.Rel)
+	}
+	go func() {
+		dc.Store(t, op.Key, files)
+		close(ps.done)
+	}()
+	// opening the FIFO for writing returns when the Store has opened it for reading (fs.CopyFile)
+	opened := make(chan *os.File, 1)
+	go func() {
+		w, err := os.OpenFile(filepath.Join(repo, t.OutDir(), op.Files[op.Gate].Rel), os.O_WRONLY, 0)
+		must(err)
+		opened <- w
+	}()
+	select {
+	case ps.fifo = <-opened:
+	case <-ps.done:
+		panic("storing: the Store returned without reading the FIFO output (is the cache on the same file system as the outputs?)")
+	case <-time.After(30 * time.Second):
+		panic("storing: the Store did not reach its gate within 30 s")
+	}
+	// ... and has created the file it copies into (fs.WriteFile: os.CreateTemp next to the destination);
+	// from here on it sits in io.Copy until the FIFO is fed
+	deadline := time.Now().Add(30 * time.Second)
+	for {
+		ents, _ := os.ReadDir(ps.tmp)
+		found := false
+		for _, e := range ents {
+			if n := op.Files[op.Gate].Rel; e.Name() != n && strings.HasPrefix(e.Name(), n) {
+				found = true
+			}
+		}
+		if found {
+			break
+		}
+		if time.Now().After(deadline) {
+			panic("storing: the Store did not start copying the FIFO output within 30 s")
+		}
+		time.Sleep(200 * time.Microsecond)
+	}
+	return ps
+}
+
+// release feeds the FIFO and waits for the Store to return.
+func (ps *pendingStore) release() {
+	if ps.released {
+		return
+	}
+	ps.released = true
+	b := make([]byte, ps.size)
+	for i := range b {
+		b[i] = byte('A' + i%25)
+	}
+	ps.fifo.Write(b)
+	ps.fifo.Close()
+	select {
+	case <-ps.done:
+	case <-time.After(30 * time.Second):
+		panic("storing: the Store did not finish within 30 s after the FIFO was fed")
+	}
 }
 
 // sizeOf is the total size of everything at or below the path, before clean.
@@ -408,6 +582,14 @@ func (r *run) oracle(c *lib.Ctx) {
 				c.Fail("protected-entry-removed", fmt.Sprintf("%s of the protected entry %s was removed", it.rel, p), js)
 			}
 			break
+		}
+	}
+	// (1b) an entry the current process was storing while clean ran comes out whole
+	for _, so := range r.obs.Storing {
+		if len(so.Missing) > 0 && r.keyShapedAncestor(so.Entry) == "" {
+			c.Fail("store-in-progress-damaged-by-clean",
+				fmt.Sprintf("the current process was storing %s (real Store, stopped while copying output %d) when clean ran; after the Store returned %d of its %d files are missing: %v (entry marked when clean started: %v)",
+					so.Entry, so.gate, len(so.Missing), len(so.files), so.Missing, so.Marked), js)
 		}
 	}
 	// (2) only whole entries are removed
@@ -796,8 +978,90 @@ func coqCase(o *Obs) string {
 	return lib.App("CClean", st, lib.N(o.Total), lib.List(surv))
 }
 
+// coqStoring: the Store of a spec with exactly one "storing" op as a run of the model (see CStoring).
+func coqStoring(o *Obs) string {
+	so := o.Storing[0]
+	items := make([]string, len(so.pre))
+	for i, it := range so.pre {
+		items[i] = lib.App("mkItem", coqPath(comps(it.rel)), lib.Bool(it.dir), lib.N(it.size), lib.Z(it.atime))
+	}
+	calls := make([]string, len(so.preCalls))
+	for i, cl := range so.preCalls {
+		calls[i] = lib.Pair(coqPath(cl.Path), lib.N(cl.Size))
+	}
+	files := make([]string, len(so.files))
+	for i, f := range so.files {
+		files[i] = lib.Pair(lib.Str(f.Rel), lib.N(uint64(f.Size)))
+	}
+	var l1, l2 []string
+	for _, p := range o.Survivors {
+		// the file the Store is copying into (os.CreateTemp) is not in the model, whose RecursiveLink is one step
+		if rel, g := strings.Join(p, "/"), so.files[so.gate].Rel; filepath.Dir(rel) == so.tmpRel && filepath.Base(rel) != g && strings.HasPrefix(filepath.Base(rel), g) {
+			continue
+		}
+		l1 = append(l1, coqPath(p))
+	}
+	for _, p := range so.afterAll {
+		l2 = append(l2, coqPath(p))
+	}
+	st := lib.App("mkState", lib.Bool(false), lib.List(items), lib.List(calls), lib.N(o.Spec.High), lib.N(o.Spec.Low))
+	return lib.App("CStoring", st, coqPath(comps(so.Entry)), lib.List(files), lib.Nat(so.gate), lib.N(o.Total), lib.List(l1), lib.List(l2))
+}
+
 // ---------------------------------------------------------------------------------------------
 // generators
+
+// genStoring: an uncompressed cache with old entries of earlier processes, entries this process has used, and
+// one real Store of this process in progress (stopped while it copies output number Gate) when clean runs.
+func genStoring(r *lib.Rng) Spec {
+	sp := Spec{Kind: "real-store-in-progress", Compress: false, Root: "cache"}
+	cluster := []int64{int64(r.Range(5000, 2_000_000))}
+	pkg, name := lib.Pick(r, pkgs), lib.Pick(r, names)
+	n := r.Range(1, 5)
+	for i := 0; i < n; i++ {
+		op := Op{How: "disk", Pkg: lib.Pick(r, pkgs), Name: lib.Pick(r, names), Key: randKey(r, pick3(r, 20, 20, 32)), Atime: randAtime(r, cluster), Files: randFiles(r, false)}
+		if r.Chance(1, 2) {
+			op.Pkg, op.Name = pkg, name // other keys of the target that is being stored
+		}
+		switch r.Intn(8) {
+		case 0:
+			op.How = "retrieve"
+		case 1:
+			op.How = "store"
+			if len(op.Files) == 0 {
+				op.Files = []FileSpec{{Rel: "out.a", Size: r.Intn(3000)}}
+			}
+		case 2:
+			op.Tmp = true
+		}
+		sp.Ops = append(sp.Ops, op)
+	}
+	st := Op{How: "storing", Pkg: pkg, Name: name, Key: randKey(r, pick3(r, 20, 20, 32)), Atime: randAtime(r, cluster), Old: r.Chance(1, 3)}
+	for i, k := 0, r.Range(1, 6); i < k; i++ {
+		st.Files = append(st.Files, FileSpec{Rel: fmt.Sprintf("f%d.o", i), Size: pick3(r, 0, r.Intn(300), r.Intn(90000))})
+	}
+	st.Gate = r.Intn(len(st.Files))
+	if r.Chance(1, 6) { // what an earlier process left at the temporary location of the same entry
+		sp.Ops = append(sp.Ops, Op{How: "disk", Tmp: true, Pkg: pkg, Name: name, Key: st.Key, Atime: randAtime(r, cluster), Files: []FileSpec{{Rel: "stale.a", Size: r.Intn(500)}}})
+	}
+	sp.Ops = append(sp.Ops, st)
+	return sp
+}
+
+// storingChooser: water marks that make clean evict in most cases.
+func storingChooser(r *lib.Rng) func(uint64, []uint64) (uint64, uint64, string) {
+	return func(total uint64, sizes []uint64) (uint64, uint64, string) {
+		var some uint64
+		if len(sizes) > 0 {
+			some = sizes[r.Intn(len(sizes))]
+		}
+		hi := r.Intn(5)
+		high := []uint64{0, 1, total / 2, total, total + 1}[hi]
+		lo := r.Intn(5)
+		low := []uint64{0, 0, 1, total / 4, some}[lo]
+		return high, low, "high=" + []string{"0", "1", "total/2", "total", "total+1"}[hi] + " low=" + []string{"0", "0", "1", "total/4", "entry"}[lo]
+	}
+}
 
 const b64 = "ABCDEFGHIJKLMNOPQRSTUVWXYZabcdefghijklmnopqrstuvwxyz0123456789-_"
 
@@ -1177,6 +1441,9 @@ func main() {
 				panic("replay: " + r.why)
 			}
 			c.Case(coqCase(&r.obs), r.obs, "replay", true)
+			if len(r.obs.Storing) == 1 {
+				c.Case(coqStoring(&r.obs), r.obs.slim(), "replay-storing", true)
+			}
 			r.oracle(c)
 			return
 		}
@@ -1187,6 +1454,9 @@ func main() {
 		}
 		if only == "" || only == "races" {
 			runRaces(c)
+		}
+		if only == "" || only == "storing" {
+			runStoring(c)
 		}
 		if only != "" && only != "clean" {
 			return
@@ -1237,6 +1507,50 @@ func main() {
 			c.Note("%d layouts with more than 12 candidate names were checked by the oracle only", skipped)
 		}
 	})
+}
+
+// runStoring: the real Store of the current process is in progress (deterministically: it is blocked on a
+// FIFO output) while the real clean runs from its walk to its end; then the Store is let go.
+func runStoring(c *lib.Ctx) {
+	n := c.Scale(40, 600)
+	evicting, damaged := 0, 0
+	for i := 0; i < n; i++ {
+		r := c.Rng.Fork()
+		sp := genStoring(r)
+		res := execute(sp, storingChooser(r))
+		if !res.ok {
+			panic(fmt.Sprintf("storing case %d: %s (%+v)", i, res.why, sp))
+		}
+		ran := res.obs.Total0 >= res.spec.High
+		key := fmt.Sprint("storing", res.obs.Items, res.obs.Calls, res.spec.High, res.spec.Low)
+		cand := 0
+		for _, it := range res.before {
+			if entryName(filepath.Base(it.rel), false) && it.dir {
+				cand++
+			}
+		}
+		if cand <= 12 {
+			// (CStoring contains the run of clean at the gate: no separate CClean case)
+			c.Case(coqStoring(&res.obs), res.obs.slim(), key, ran)
+		} else {
+			c.Eval(res.obs.slim(), key, ran)
+		}
+		res.oracle(c)
+		so := res.obs.Storing[0]
+		if ran {
+			evicting++
+		}
+		if len(so.Missing) > 0 {
+			damaged++
+		}
+		c.Hist("kind", sp.Kind)
+		c.Hist("storing_water_marks", res.spec.Marks)
+		c.HistN("storing_gate", so.gate)
+		c.HistN("storing_files", len(so.files))
+		c.Hist("storing_entry_marked_at_gate", fmt.Sprint(so.Marked))
+		c.HistN("removed_roots", countRoots(res))
+	}
+	c.Note("real-Store stream: %d layouts, clean had to evict in %d of them while the Store was stopped inside RecursiveLink; %d stored entries came out incomplete", n, evicting, damaged)
 }
 
 func countRoots(r *run) int {
